@@ -662,10 +662,14 @@ fn gen(args: &Args, emit: &mut dyn FnMut(Value)) {
         for (level, n, stack) in [("tree", 1000usize, 2048usize), ("router", 1000, 2048), ("tree", 2000, 8192)] {
             emit(json!({"family": "deep_tree", "level": level, "n": n, "stack_kib": stack, "ops": all}));
         }
-        if args.tier == "thorough" || args.extra.iter().any(|a| a == "--deep-tree-findings") {
-            for (level, n, stack, ops) in [("router", 6000usize, 2048usize, vec!["insert_deep"]), ("tree", 6500, 2048, vec!["remove"]), ("tree", 6500, 2048, vec!["retain"]), ("tree", 8500, 2048, vec!["clone"]), ("tree", 21000, 8192, vec!["insert_deep"])] {
-                emit(json!({"family": "deep_tree", "level": level, "n": n, "stack_kib": stack, "ops": ops}));
-            }
+        // above the thresholds: known finding deep-tree-stack-overflow (KNOWN-FINDING line, exit 0); the 8 MiB case needs 900 MB
+        // and 7 s: thorough tier only
+        let mut over = vec![("router", 6000usize, 2048usize, vec!["insert_deep"]), ("tree", 6500, 2048, vec!["remove"]), ("tree", 6500, 2048, vec!["retain"]), ("tree", 8500, 2048, vec!["clone"])];
+        if args.tier == "thorough" {
+            over.push(("tree", 21000, 8192, vec!["insert_deep"]));
+        }
+        for (level, n, stack, ops) in over {
+            emit(json!({"family": "deep_tree", "level": level, "n": n, "stack_kib": stack, "ops": ops}));
         }
     }
     // api/log.rs parses `Forwarded` / `X-Forwarded-For` by hand: every adversarial element alone, keyed, quoted and in a list
